@@ -71,6 +71,10 @@ MUTS = {
  'P8_whole_flags_chunk_when_time_extent_covered': ('katdal/vis_flags_weights.py',
    "                    lost_map[dst_index].extend([src_key, slices])",
    "                    if slices[0].stop - slices[0].start == darray['flags'].chunks[0][dst_index[0]]:\n                        slices = (slices[0],) + tuple(slice(0, n[i]) for n, i in zip(darray['flags'].chunks[1:], dst_index[1:]))\n                    lost_map[dst_index].extend([src_key, slices])"),
+ # ---- first reads of one flags indexer by several threads (round 3)
+ 'Q1_seeded_C16_8_double_checked_locking_publishes_early': ('katdal/lazy_indexer.py', '        with self._lock:\n            if self._dataset is None:\n                if isinstance(self._orig_dataset, DaskLazyIndexer):\n                    self._orig_dataset = self._orig_dataset.dataset\n                dataset = dask_getitem(self._orig_dataset, self.keep)\n                for transform in self.transforms:\n                    dataset = transform(dataset)\n                self._dataset = dataset\n                self._orig_dataset = None\n            return self._dataset\n', '        if self._dataset is None:\n            with self._lock:\n                if self._dataset is None:\n                    if isinstance(self._orig_dataset, DaskLazyIndexer):\n                        self._orig_dataset = self._orig_dataset.dataset\n                    self._dataset = dask_getitem(self._orig_dataset, self.keep)\n                    for transform in self.transforms:\n                        self._dataset = transform(self._dataset)\n                    self._orig_dataset = None\n        return self._dataset\n'),
+ 'Q3_no_lock_and_graph_published_before_the_transforms': ('katdal/lazy_indexer.py', '        with self._lock:\n            if self._dataset is None:\n                if isinstance(self._orig_dataset, DaskLazyIndexer):\n                    self._orig_dataset = self._orig_dataset.dataset\n                dataset = dask_getitem(self._orig_dataset, self.keep)\n                for transform in self.transforms:\n                    dataset = transform(dataset)\n                self._dataset = dataset\n                self._orig_dataset = None\n            return self._dataset\n', '        if self._dataset is None:\n            if isinstance(self._orig_dataset, DaskLazyIndexer):\n                self._orig_dataset = self._orig_dataset.dataset\n            self._dataset = dask_getitem(self._orig_dataset, self.keep)\n            for transform in self.transforms:\n                self._dataset = transform(self._dataset)\n            self._orig_dataset = None\n        return self._dataset\n'),
+ 'Q4_no_lock_local_accumulation_BENIGN_RACE': ('katdal/lazy_indexer.py', '        with self._lock:\n            if self._dataset is None:\n                if isinstance(self._orig_dataset, DaskLazyIndexer):\n                    self._orig_dataset = self._orig_dataset.dataset\n                dataset = dask_getitem(self._orig_dataset, self.keep)\n                for transform in self.transforms:\n                    dataset = transform(dataset)\n                self._dataset = dataset\n                self._orig_dataset = None\n            return self._dataset\n', '        if self._dataset is None:\n            orig = self._orig_dataset\n            if isinstance(orig, DaskLazyIndexer):\n                orig = orig.dataset\n            dataset = dask_getitem(orig, self.keep)\n            for transform in self.transforms:\n                dataset = transform(dataset)\n            self._dataset = dataset\n        return self._dataset\n'),
  # ---- selection plumbing / concatenated data sets (round 2)
  'N1_seeded_C16_3_truthy_guard': ('katdal/dataset.py',
    "        if weights_keep is not None:\n            self._weights_keep = weights_keep\n        if flags_keep is not None:\n",
